@@ -114,6 +114,7 @@ type add struct {
 	Ident string `json:"ident"`
 	Node  string `json:"node"`
 	ID    string `json:"id"`
+	Acc   bool   `json:"names_accepted"`
 	OK    bool   `json:"added"`
 }
 
@@ -122,6 +123,7 @@ type query struct {
 	App   string         `json:"app"`
 	Entry string         `json:"entry"`
 	Node  string         `json:"node,omitempty"`
+	Acc   bool           `json:"names_accepted"`
 	IDs   []string       `json:"ids,omitempty"`
 	Err   string         `json:"error,omitempty"`
 	Count map[string]int `json:"count,omitempty"`
@@ -156,11 +158,17 @@ func (e *env) run(t *testing.T, sc *scenario) {
 	}
 	for i := range sc.Adds {
 		a := &sc.Adds[i]
+		a.Acc = validateDeploy(a.App, a.Entry) == 0 && validateNode(a.Node) == 0
 		w := &types.Workload{ID: a.ID, Name: utils.MakeWorkloadName(a.App, a.Entry, a.Ident), Nodename: a.Node, Podname: "p"}
 		a.OK = e.st.AddWorkload(ctx, w, nil) == nil
 	}
 	for i := range sc.Queries {
 		q := &sc.Queries[i]
+		if q.Kind == "list" {
+			q.Acc = (q.App == "" || validateDeploy(q.App, "e") == 0) && (q.Entry == "" || validateEntry(q.Entry) == 0) && (q.Node == "" || validateNode(q.Node) == 0)
+		} else {
+			q.Acc = validateDeploy(q.App, q.Entry) == 0
+		}
 		if q.Kind == "list" {
 			ws, err := e.st.ListWorkloads(ctx, q.App, q.Entry, q.Node, 0, nil)
 			if err != nil {
@@ -186,7 +194,7 @@ func (e *env) run(t *testing.T, sc *scenario) {
 func (sc *scenario) term(backend string) string {
 	adds := make([]string, len(sc.Adds))
 	for i, a := range sc.Adds {
-		adds[i] = fmt.Sprintf("(mkAdd %s %s %s %s %s %s)", cstr(a.App), cstr(a.Entry), cstr(a.Ident), cstr(a.Node), cstr(a.ID), vh.Bool(a.OK))
+		adds[i] = fmt.Sprintf("(mkAdd %s %s %s %s %s %s %s)", cstr(a.App), cstr(a.Entry), cstr(a.Ident), cstr(a.Node), cstr(a.ID), vh.Bool(a.Acc), vh.Bool(a.OK))
 	}
 	qs := make([]string, len(sc.Queries))
 	for i, q := range sc.Queries {
@@ -195,7 +203,7 @@ func (sc *scenario) term(backend string) string {
 			if q.Err == "" {
 				obs = vh.Some(cstrList(q.IDs))
 			}
-			qs[i] = fmt.Sprintf("(QList %s %s %s %s)", cstr(q.App), cstr(q.Entry), cstr(q.Node), obs)
+			qs[i] = fmt.Sprintf("(QList %s %s %s %s %s)", cstr(q.App), cstr(q.Entry), cstr(q.Node), vh.Bool(q.Acc), obs)
 		} else {
 			items := []string{}
 			if q.Err != "" {
@@ -204,7 +212,7 @@ func (sc *scenario) term(backend string) string {
 			for _, k := range vh.SortedKeys(q.Count) {
 				items = append(items, fmt.Sprintf("(%s, %d%%N)", cstr(k), q.Count[k]))
 			}
-			qs[i] = fmt.Sprintf("(QStatus %s %s %s)", cstr(q.App), cstr(q.Entry), vh.List(items))
+			qs[i] = fmt.Sprintf("(QStatus %s %s %s %s)", cstr(q.App), cstr(q.Entry), vh.Bool(q.Acc), vh.List(items))
 		}
 	}
 	b := "Etcd"
@@ -351,7 +359,7 @@ func TestC24(t *testing.T) {
 		slash, glob, underline := addsTags(sc.Adds, sc.Queries)
 		accepted := true
 		for _, a := range sc.Adds {
-			if validateDeploy(a.App, a.Entry) != 0 || validateNode(a.Node) != 0 {
+			if !a.Acc {
 				accepted = false
 			}
 		}
